@@ -1456,3 +1456,317 @@ Proof.
   rewrite <- (fmt_lines_edge cfg a1 t1), <- (fmt_lines_edge cfg a2 t2).
   rewrite E1, E2, H. reflexivity.
 Qed.
+
+(* ====================================================================== F: formatting a formatted run changes nothing *)
+(* ---------- no tabs and carriage returns after the first four substitutions, nor later ---------- *)
+Definition clean (s : list Z) : Prop := Forall (fun c => c <> TAB /\ c <> CR) s.
+
+Lemma resub_chars (P : Z -> Prop) m :
+  (forall s rep k, m s = Some (rep, k) -> Forall P rep) ->
+  forall s skip, Forall P s -> Forall P (resub m skip s).
+Proof.
+  intros Hm. induction s as [|c r IH]; intros skip H; [constructor|]. inversion H; subst.
+  cbn [resub]. destruct skip as [|k]; [|apply IH; assumption].
+  destruct (m (c :: r)) as [[rep [|k]]|] eqn:E.
+  - constructor; [assumption | apply IH; assumption].
+  - apply Forall_app. split; [apply (Hm _ _ _ E) | apply IH; assumption].
+  - constructor; [assumption | apply IH; assumption].
+Qed.
+
+Lemma resub_byte_out a b : a <> b -> forall s k, ~ In a (resub (m_byte a b) k s).
+Proof.
+  intros Hab. induction s as [|c r IH]; intros k; [intros []|]. cbn [resub].
+  destruct k as [|k]; [|apply IH]. unfold m_byte at 1. destruct (c =? a) eqn:E.
+  - cbn [app]. intros [H | H]; [congruence | exact (IH _ H)].
+  - apply Z.eqb_neq in E. intros [H | H]; [congruence | exact (IH _ H)].
+Qed.
+
+Lemma m_byte_rep (P : Z -> Prop) a b s rep k : P b -> m_byte a b s = Some (rep, k) -> Forall P rep.
+Proof.
+  intros Hb. unfold m_byte. destruct s as [|c r]; [discriminate|]. destruct (c =? a); [|discriminate].
+  intros [= <- _]. repeat constructor. exact Hb.
+Qed.
+
+Lemma m_pair_rep (P : Z -> Prop) a b c s rep k : P c -> m_pair a b c s = Some (rep, k) -> Forall P rep.
+Proof.
+  intros Hc. unfold m_pair. destruct s as [|x [|y t]]; try discriminate.
+  destruct ((x =? a) && (y =? b)); [|discriminate]. intros [= <- _]. repeat constructor. exact Hc.
+Qed.
+
+Lemma canon_ws_clean r : clean (canon_ws r).
+Proof.
+  unfold clean, canon_ws. apply Forall_forall. intros c Hc. split.
+  - intros ->. revert Hc. set (s1 := resub (m_byte TAB SP) 0 r).
+    assert (H1 : Forall (fun c => c <> TAB) s1).
+    { apply Forall_forall. intros c Hc ->. exact (resub_byte_out TAB SP ltac:(discriminate) r 0%nat Hc). }
+    assert (H4 : Forall (fun c => c <> TAB)
+                   (resub (m_byte CR NL) 0 (resub (m_pair NL CR NL) 0 (resub (m_pair CR NL NL) 0 s1)))).
+    { apply resub_chars; [intros s rep k; apply m_byte_rep; discriminate|].
+      apply resub_chars; [intros s rep k; apply m_pair_rep; discriminate|].
+      apply resub_chars; [intros s rep k; apply m_pair_rep; discriminate|]. exact H1. }
+    rewrite Forall_forall in H4. intros Hc. exact (H4 _ Hc eq_refl).
+  - intros ->. exact (resub_byte_out CR NL ltac:(discriminate) _ 0%nat Hc).
+Qed.
+
+Lemma resub_byte_id a b s : ~ In a s -> resub (m_byte a b) 0 s = s.
+Proof.
+  induction s as [|c r IH]; intros H; [reflexivity|]. cbn [resub]. unfold m_byte at 1.
+  destruct (c =? a) eqn:E; [apply Z.eqb_eq in E; subst; exfalso; apply H; left; reflexivity|].
+  f_equal. apply IH. intros Hr. apply H. right. exact Hr.
+Qed.
+
+Lemma resub_pair_id a b c s : ~ In a s \/ ~ In b s -> resub (m_pair a b c) 0 s = s.
+Proof.
+  induction s as [|x r IH]; intros H; [reflexivity|]. cbn [resub]. unfold m_pair at 1.
+  assert (Hr : ~ In a r \/ ~ In b r) by (destruct H as [H | H]; [left | right]; intros Hr; apply H; right; exact Hr).
+  destruct r as [|y t].
+  - reflexivity.
+  - destruct ((x =? a) && (y =? b)) eqn:E.
+    + apply andb_true_iff in E. destruct E as [E1 E2]. apply Z.eqb_eq in E1, E2. subst. exfalso.
+      destruct H as [H | H]; apply H; [left; reflexivity | right; left; reflexivity].
+    + f_equal. apply IH. exact Hr.
+Qed.
+
+Lemma canon_ws_id s : clean s -> canon_ws s = s.
+Proof.
+  intros H. unfold clean in H. rewrite Forall_forall in H.
+  assert (HT : ~ In TAB s) by (intros Hc; destruct (H _ Hc) as [H1 _]; congruence).
+  assert (HC : ~ In CR s) by (intros Hc; destruct (H _ Hc) as [_ H1]; congruence).
+  unfold canon_ws. rewrite (resub_byte_id TAB SP s HT).
+  rewrite (resub_pair_id CR NL NL s) by (left; exact HC).
+  rewrite (resub_pair_id NL CR NL s) by (right; exact HC).
+  apply resub_byte_id. exact HC.
+Qed.
+
+Definition cleanc (c : Z) : Prop := c <> TAB /\ c <> CR.
+
+Lemma clean_repeat_sp n : Forall cleanc (repeat SP n).
+Proof. induction n; cbn; constructor; [split; discriminate | assumption]. Qed.
+
+Lemma span_keeps (P : Z -> Prop) p s n t : span_p p s = (n, t) -> Forall P s -> Forall P t.
+Proof.
+  intros E H. destruct (span_p_spec _ _ _ _ E) as (H1 & _). rewrite H1 in H. apply Forall_app in H. apply H.
+Qed.
+
+Lemma sub_head_sp_xx_chars (P : Z -> Prop) x rep s : Forall P rep -> Forall P s -> Forall P (sub_head_sp_xx x rep s).
+Proof.
+  intros Hr Hs. unfold sub_head_sp_xx. destruct (span_p is_sp s) as [n t] eqn:E.
+  pose proof (span_keeps P _ _ _ _ E Hs) as Ht.
+  destruct t as [|a [|b t']]; try assumption. destruct ((a =? x) && (b =? x)); [|assumption].
+  apply Forall_app. split; [assumption|]. inversion Ht; subst. inversion H2; subst. assumption.
+Qed.
+
+Lemma sub_head_sp_dollar_chars (P : Z -> Prop) s : Forall P s -> Forall P (sub_head_sp_dollar s).
+Proof.
+  intros Hs. unfold sub_head_sp_dollar. destruct (span_p is_sp s) as [n t] eqn:E.
+  pose proof (span_keeps P _ _ _ _ E Hs) as Ht.
+  destruct t as [|c [|d t']]; [constructor | | assumption].
+  destruct (c =? NL) eqn:Ec; [|assumption]. apply Z.eqb_eq in Ec. subst c. exact Ht.
+Qed.
+
+Ltac fc := repeat (apply Forall_cons || apply Forall_nil); try assumption; try (split; discriminate).
+
+Lemma fmt_run_clean cfg r : clean (fmt_run cfg r).
+Proof.
+  rewrite fmt_run_eq. unfold fmt_run_unfolded. fold (canon_ws r). unfold clean. fold cleanc.
+  pose proof (canon_ws_clean r) as H0. unfold clean in H0. fold cleanc in H0.
+  assert (Hnl : cleanc NL) by (split; discriminate).
+  assert (Hind : Forall cleanc (indent_bytes cfg)) by apply clean_repeat_sp.
+  assert (Hxx : forall x, cleanc x -> forall s rep k, m_nl_sp_xx x (indent_bytes cfg) s = Some (rep, k) -> Forall cleanc rep).
+  { intros x Hx s rep k. unfold m_nl_sp_xx. destruct s as [|c t]; [discriminate|]. destruct (c =? NL); [|discriminate].
+    destruct (span_p is_sp t) as [n u]. destruct u as [|a [|b u']]; try discriminate.
+    destruct ((a =? x) && (b =? x)); [|discriminate]. intros [= <- _].
+    apply Forall_cons; [exact Hnl|]. apply Forall_app. split; [exact Hind | fc]. }
+  assert (H5 : Forall cleanc (resub m_sp1_nl 0 (canon_ws r))).
+  { apply resub_chars; [|exact H0]. intros s rep k. unfold m_sp1_nl. destruct s as [|c t]; [discriminate|].
+    destruct (c =? SP); [|discriminate]. destruct (span_p is_sp t) as [n u]. destruct u as [|d u']; [discriminate|].
+    destruct (d =? NL); [|discriminate]. intros [= <- _]. fc. }
+  set (s5 := resub m_sp1_nl 0 (canon_ws r)) in *.
+  assert (H6 : Forall cleanc (if negb (f_at_start cfg) then sub_head_sp_xx DASH [SP; SP; DASH; DASH] s5 else s5)).
+  { destruct (negb (f_at_start cfg)); [|exact H5]. apply sub_head_sp_xx_chars; [|exact H5].
+    fc. }
+  set (s6 := if negb (f_at_start cfg) then _ else s5) in *.
+  assert (H7 : Forall cleanc (resub (m_nl_sp_xx SLASH (indent_bytes cfg)) 0 (resub (m_nl_sp_xx DASH (indent_bytes cfg)) 0 s6))).
+  { apply resub_chars; [apply Hxx; split; discriminate|]. apply resub_chars; [apply Hxx; split; discriminate|]. exact H6. }
+  set (s7 := resub (m_nl_sp_xx SLASH _) 0 _) in *.
+  assert (H8 : Forall cleanc (if f_at_start cfg then sub_head_sp_xx SLASH [SLASH; SLASH]
+                                (if f_at_start cfg then sub_head_sp_xx DASH [DASH; DASH] s7 else s7)
+                              else (if f_at_start cfg then sub_head_sp_xx DASH [DASH; DASH] s7 else s7))).
+  { destruct (f_at_start cfg); [|exact H7].
+    apply sub_head_sp_xx_chars; [fc|].
+    apply sub_head_sp_xx_chars; [fc | exact H7]. }
+  set (s8 := if f_at_start cfg then sub_head_sp_xx SLASH _ _ else _) in *.
+  assert (H9 : Forall cleanc (resub (m_nl_sp_end (indent_bytes cfg)) 0 s8)).
+  { apply resub_chars; [|exact H8]. intros s rep k. unfold m_nl_sp_end. destruct s as [|c t]; [discriminate|].
+    destruct (c =? NL); [|discriminate]. destruct (span_p is_sp t) as [n u]. destruct u; [|discriminate].
+    intros [= <- _]. apply Forall_cons; [exact Hnl | exact Hind]. }
+  set (s9 := resub (m_nl_sp_end _) 0 s8) in *.
+  assert (H10 : Forall cleanc (if f_at_start cfg then sub_head_sp_dollar s9 else s9)).
+  { destruct (f_at_start cfg); [apply sub_head_sp_dollar_chars|]; exact H9. }
+  set (s10 := if f_at_start cfg then sub_head_sp_dollar s9 else s9) in *.
+  assert (H11 : Forall cleanc (resub (m_nl_nl1 [NL; NL]) 0 s10)).
+  { apply resub_chars; [|exact H10]. intros s rep k. unfold m_nl_nl1. destruct s as [|c t]; [discriminate|].
+    destruct (c =? NL); [|discriminate]. destruct (span_p is_nl t) as [n u]. destruct n; [discriminate|].
+    intros [= <- _]. fc. }
+  destruct (f_at_end cfg); [|exact H11].
+  apply resub_chars; [|exact H11]. intros s rep k. unfold m_spnl1_end. destruct s as [|c t]; [discriminate|].
+  destruct (is_sp_nl c); [|discriminate]. destruct (span_p is_sp_nl (c :: t)) as [n u]. destruct u; [|discriminate].
+  intros [= <- _]. fc.
+Qed.
+
+(* ---------- the formatted lines are a fixed point of the line pipeline ---------- *)
+Lemma lstrip_repeat_sp n : lstrip (repeat SP n) = [].
+Proof. rewrite <- (app_nil_r (repeat SP n)), lstrip_repeat_app. reflexivity. Qed.
+
+Lemma all_sp_repeat n : forallb is_sp (repeat SP n) = true.
+Proof. induction n; cbn; auto. Qed.
+
+Lemma reind2_idem n l : reind2 (repeat SP n) (reind2 (repeat SP n) l) = reind2 (repeat SP n) l.
+Proof.
+  rewrite (reind2_spec n l). destruct (is_cmt (lstrip l)) eqn:C.
+  - rewrite reind2_spec, lstrip_ind, lstrip_idem, C. reflexivity.
+  - rewrite reind2_spec, C. reflexivity.
+Qed.
+
+Lemma ends_sp_reind2 n l : ends_sp l = false -> ends_sp (reind2 (repeat SP n) l) = false.
+Proof. intros H. unfold reind2. apply ends_sp_reind, ends_sp_reind. exact H. Qed.
+
+Lemma tail_line_idem n last l :
+  tail_line (repeat SP n) last (tail_line (repeat SP n) last l) = tail_line (repeat SP n) last l.
+Proof.
+  unfold tail_line. destruct last.
+  - unfold indent_last. cbn [andb]. destruct (forallb is_sp (reind2 (repeat SP n) l)) eqn:F.
+    + rewrite reind2_spec, lstrip_repeat_sp. cbn [is_cmt starts2 orb]. rewrite all_sp_repeat. reflexivity.
+    + rewrite reind2_idem, F. reflexivity.
+  - unfold indent_last. cbn [andb].
+    rewrite rstrip_fixed by (apply ends_sp_reind2, ends_sp_rstrip). apply reind2_idem.
+Qed.
+
+Lemma map_last_fix f L :
+  (forall x, In x (removelast L) -> f false x = x) ->
+  (L <> [] -> f true (last L []) = last L []) -> map_last f L = L.
+Proof.
+  induction L as [|a L IH]; intros H1 H2; [reflexivity|]. destruct L as [|b L].
+  - cbn. f_equal. apply (H2 ltac:(discriminate)).
+  - change (map_last f (a :: b :: L)) with (f false a :: map_last f (b :: L)). f_equal.
+    + apply H1. left. reflexivity.
+    + apply IH.
+      * intros x Hx. apply H1. rewrite removelast_cons by discriminate. right. exact Hx.
+      * intros _. apply (H2 ltac:(discriminate)).
+Qed.
+
+Lemma sq'_fixed t : dbl t = false -> sq' t = t.
+Proof.
+  induction t as [|l r IH]; intros H; [reflexivity|]. cbn [sq']. destruct r as [|l' [|y1 z1]].
+  - reflexivity.
+  - reflexivity.
+  - cbn [dbl] in H. apply orb_false_iff in H. destruct H as [H1 H2]. rewrite H1. f_equal. apply IH. exact H2.
+Qed.
+
+Lemma sq_sq t : sq (sq t) = sq t.
+Proof. rewrite !sq_eq. apply sq'_fixed, dbl_sq'. Qed.
+
+Lemma is_nil_sq t : is_nil (sq t) = is_nil t.
+Proof.
+  destruct t as [|l r]; [reflexivity|]. rewrite sq_eq.
+  destruct (sq' (l :: r)) eqn:E; [exfalso; apply (sq'_nonempty (l :: r)); [discriminate | exact E] | reflexivity].
+Qed.
+
+Lemma sq'_len2 t : (2 <= length t)%nat -> (2 <= length (sq' t))%nat.
+Proof.
+  induction t as [|l r IH]; intros H; [cbn in H; lia|]. cbn [sq']. destruct r as [|l' [|y1 z1]].
+  - cbn in H. lia.
+  - cbn. lia.
+  - assert (H2 : (2 <= length (sq' (l' :: y1 :: z1)))%nat) by (apply IH; cbn; lia).
+    destruct (is_nil l && is_nil l'); [exact H2 | cbn [length]; lia].
+Qed.
+
+Lemma is_single_empty_sq t : is_single_empty (sq t) = is_single_empty t.
+Proof.
+  rewrite sq_eq. destruct t as [|l [|l' r]]; try reflexivity.
+  pose proof (sq'_len2 (l :: l' :: r) ltac:(cbn; lia)) as H.
+  destruct (sq' (l :: l' :: r)) as [|a [|b u]]; cbn in H; try lia.
+  cbn [is_single_empty]. destruct a; destruct l; reflexivity.
+Qed.
+
+Lemma head_start_idem l : head_start (head_start l) = head_start l.
+Proof.
+  rewrite (head_start_spec l). destruct (is_cmt (lstrip l)) eqn:C.
+  - rewrite head_start_spec, lstrip_idem, C. reflexivity.
+  - rewrite head_start_spec, C. reflexivity.
+Qed.
+
+Lemma head_mid_idem l :
+  head_xx DASH [SP; SP; DASH; DASH] (head_xx DASH [SP; SP; DASH; DASH] l) = head_xx DASH [SP; SP; DASH; DASH] l.
+Proof.
+  assert (E : head_xx DASH [SP; SP; DASH; DASH] l = l \/
+              exists t, head_xx DASH [SP; SP; DASH; DASH] l = [SP; SP; DASH; DASH] ++ t).
+  { unfold head_xx. destruct (starts2 DASH (lstrip l)); [right; eexists; reflexivity | left; reflexivity]. }
+  destruct E as [E | [t E]]; rewrite E; [exact E|]. reflexivity.
+Qed.
+
+Lemma ends_sp_head_start l : ends_sp l = false -> ends_sp (head_start l) = false.
+Proof.
+  intros H. unfold head_start. apply (ends_sp_head_xx SLASH []); [reflexivity|].
+  apply (ends_sp_head_xx DASH []); [reflexivity | exact H].
+Qed.
+
+Theorem fmt_lines_idem cfg l0 ls m0 ms : fmt_lines cfg l0 ls = m0 :: ms ->
+  fmt_lines cfg m0 ms = m0 :: ms.
+Proof.
+  unfold fmt_lines at 1. intros [= H0 Hs].
+  set (t := fmt_tail cfg ls) in *. set (h := fmt_head cfg l0 ls) in *.
+  assert (Et : fmt_tail cfg ms = ms).
+  { rewrite fmt_tail_lines. unfold indent_bytes. apply map_last_fix.
+    - intros x Hx. rewrite <- Hs, sq_eq in Hx. apply sq'_init_In in Hx. subst t.
+      rewrite fmt_tail_lines, removelast_map_last in Hx. apply in_map_iff in Hx.
+      destruct Hx as (y & <- & _). apply tail_line_idem.
+    - intros Hne. rewrite <- Hs. rewrite <- Hs in Hne.
+      assert (Ht : t <> []) by (intros E; apply Hne; rewrite E; reflexivity).
+      rewrite last_sq by exact Ht. subst t. rewrite fmt_tail_lines in *.
+      assert (Hls : ls <> []) by (intros E; apply Ht; rewrite E; reflexivity).
+      rewrite last_map_last by exact Hls. apply tail_line_idem. }
+  unfold fmt_lines. rewrite Et. f_equal; [|rewrite <- Hs; apply sq_sq].
+  assert (Nms : is_nil ms = is_nil ls).
+  { rewrite <- Hs, is_nil_sq. subst t. unfold fmt_tail. rewrite is_nil_map_last.
+    destruct ls; reflexivity. }
+  unfold fmt_head at 1. rewrite Nms.
+  assert (Hh5 : is_nil ls = false -> ends_sp (if is_nil ls then l0 else rstrip l0) = false)
+    by (intros ->; apply ends_sp_rstrip).
+  destruct (f_at_start cfg) eqn:A.
+  - fold (head_start (if is_nil ls then m0 else rstrip m0)).
+    assert (Eh : h = head_start (if is_nil ls then l0 else rstrip l0)) by (unfold h, fmt_head; rewrite A; reflexivity).
+    assert (Hends : is_nil ls = false -> ends_sp h = false)
+      by (intros N; rewrite Eh; apply ends_sp_head_start, Hh5, N).
+    unfold dollar_head in H0.
+    destruct (forallb is_sp h && (is_nil t || is_single_empty t)) eqn:C.
+    + subst m0. assert (E0 : (if is_nil ls then [] else rstrip []) = ([] : list Z)) by (destruct (is_nil ls); reflexivity).
+      rewrite E0. unfold dollar_head. cbn. destruct (is_nil ms || is_single_empty ms); reflexivity.
+    + subst m0.
+      assert (E1 : (if is_nil ls then h else rstrip h) = h).
+      { destruct (is_nil ls) eqn:N; [reflexivity|]. apply rstrip_fixed, Hends. reflexivity. }
+      rewrite E1, Eh, head_start_idem, <- Eh. unfold dollar_head.
+      rewrite <- Hs, is_nil_sq, is_single_empty_sq, C. reflexivity.
+  - assert (Eh : h = head_xx DASH [SP; SP; DASH; DASH] (if is_nil ls then l0 else rstrip l0))
+      by (unfold h, fmt_head; rewrite A; reflexivity).
+    subst m0.
+    assert (E1 : (if is_nil ls then h else rstrip h) = h).
+    { destruct (is_nil ls) eqn:N; [reflexivity|]. apply rstrip_fixed. rewrite Eh.
+      apply (ends_sp_head_xx DASH [SP; SP]); [reflexivity|]. apply ends_sp_rstrip. }
+    unfold fmt_head. rewrite Nms, A, E1. rewrite Eh at 1. rewrite head_mid_idem. symmetry. exact Eh.
+Qed.
+
+Theorem fmt_run_idempotent cfg r : f_at_end cfg = false -> fmt_run cfg (fmt_run cfg r) = fmt_run cfg r.
+Proof.
+  intros He.
+  destruct (split_nl (canon_ws r)) as [|l0 ls] eqn:HS; [destruct (split_nl_nonempty _ HS)|].
+  pose proof (split_nl_noNL (canon_ws r)) as HN. rewrite HS in HN.
+  pose proof (noNL_fmt_lines cfg l0 ls HN) as HM.
+  pose proof (fmt_run_clean cfg r) as Hc.
+  pose proof (fmt_run_lines cfg r l0 ls HS) as E. rewrite He in E.
+  destruct (fmt_lines cfg l0 ls) as [|m0 ms] eqn:EM; [discriminate|].
+  assert (S2 : split_nl (canon_ws (fmt_run cfg r)) = m0 :: ms).
+  { rewrite canon_ws_id by exact Hc. rewrite E. apply split_joinl. exact HM. }
+  rewrite (fmt_run_lines cfg (fmt_run cfg r) m0 ms S2), He.
+  rewrite (fmt_lines_idem cfg l0 ls m0 ms EM). symmetry. exact E.
+Qed.
